@@ -40,6 +40,10 @@ CHECKS["C12"] = ("exploration", "address-book model monitor (issue order vs inde
   "every NewAddress outcome is predicted (next index address or gap-limit error), every issued address must stay listed with the right used flag across payments, reorgs that remove first payments and restarts, and a restore with index hints must rediscover every funded index",
   "trusts harness BIP-39/BIP-32 references for the expected address at index i; restore completeness demanded only while the final chain satisfies the gap invariant", "§5 C12")
 
+CHECKS["C02"] = ("exploration", "conservation / ownership / eligibility / fee-bounds monitor on every transaction returned by the create calls, against the reference ledger and a reservation set kept by the monitor, plus must-succeed / must-fail funding regions",
+  "every transaction built by AutoCreateRawTransaction, CreateRawTransaction, CreateStakingTransaction, CreateBindingTransaction and the API AutoCreateTransaction over seeded UTXO sets (few / hundreds of small / large+dust / mixed coins, immature and locked coins) and request sequences is decoded and checked for input ownership, eligibility, output exactness, change address, fee equality and bounds (relay minimum measured on the size after the wallet signs it)",
+  "trusts the reference ledger, mass-core policy constants (relay fee, standard size) and the monitor's own reservation set; the band between the funding regions is unspecified", "§5 C02")
+
 NOT_APPLICABLE = {}
 
 def main():
